@@ -565,8 +565,9 @@ impl Model {
     /// let solutions: Vec<_> = m.minimize_and_iterate(x).collect();
     /// ```
     pub fn minimize_and_iterate(self, objective: impl View) -> impl Iterator<Item = Solution> {
-        // A model that exceeded its memory limit while being built is not searched
-        if self.memory_limit_exceeded {
+        // A model that exceeded its memory limit while being built, or that recorded a constraint
+        // validation error while constraints were posted, is not searched
+        if self.memory_limit_exceeded || !self.constraint_validation_errors.is_empty() {
             return Box::new(std::iter::empty()) as Box<dyn Iterator<Item = Solution>>;
         }
         // First try specialized optimization before falling back to search
@@ -705,8 +706,9 @@ impl Model {
     /// let solutions: Vec<_> = m.maximize_and_iterate(x).collect();
     /// ```
     pub fn maximize_and_iterate(self, objective: impl View) -> impl Iterator<Item = Solution> {
-        // A model that exceeded its memory limit while being built is not searched
-        if self.memory_limit_exceeded {
+        // A model that exceeded its memory limit while being built, or that recorded a constraint
+        // validation error while constraints were posted, is not searched
+        if self.memory_limit_exceeded || !self.constraint_validation_errors.is_empty() {
             return Box::new(std::iter::empty()) as Box<dyn Iterator<Item = Solution>>;
         }
         // First try specialized optimization before falling back to search
